@@ -105,7 +105,12 @@ impl Crate {
         );
 
         import_path2id.reserve(import_index.items.len());
-        for (id, entry) in import_index.items.iter() {
+        // Two items can share a path (e.g. a type and a value with the same name):
+        // visit them in a fixed order, so that the winner doesn't depend on the
+        // iteration order of the map.
+        let mut items: Vec<_> = import_index.items.iter().collect();
+        items.sort_by_key(|(id, _)| id.0);
+        for (id, entry) in items {
             for path in entry.public_paths.iter().chain(entry.private_paths.iter()) {
                 if !import_path2id.contains_key(&path.0) {
                     import_path2id.insert(path.0.clone(), id.to_owned());
@@ -243,6 +248,11 @@ impl Crate {
             return Ok(Ok(GlobalItemId::new(id, self.core.package_id.to_owned())));
         }
 
+        // More than one re-export can lead to the item (e.g. a named re-export that shadows
+        // a glob re-export): look behind the most specific one first, in a fixed order,
+        // rather than in the iteration order of the map.
+        let mut re_exports: Vec<_> = self.external_re_exports.iter().collect();
+        re_exports.sort_by(|(a, ..), (b, ..)| b.len().cmp(&a.len()).then_with(|| a.cmp(b)));
         for (
             re_exported_path_prefix,
             _,
@@ -250,7 +260,7 @@ impl Crate {
                 source_path: source_path_prefix,
                 external_crate_id,
             },
-        ) in self.external_re_exports.iter()
+        ) in re_exports
         {
             if re_exported_path_prefix
                 .iter()
